@@ -106,7 +106,7 @@ Pred(p, v) ==
 (* sinks of collect *)
 Sink(sink, items) ==
   CASE sink = "vec" -> VL(items)
-    [] sink = "count" -> VI(Len(items))
+    [] sink \in {"count", "count2"} -> VI(Len(items))      \* collect::<usize>() and .count()
     [] sink = "unit" -> VU
     [] sink = "str" -> VStr([i \in DOMAIN items |-> FirstTok(items[i])])
 
